@@ -297,7 +297,7 @@ def matches_known(pid, scn, msgs, kf):
 
 def sample_of(scn):
     txt = scn.text().splitlines()
-    ops = [l for l in txt if l.split()[0] in ("in", "svc", "drain", "trig", "trigr", "trigt", "hexit", "busy", "hold", "full", "buffered", "flag", "poke", "hq", "vq")]
+    ops = [l for l in txt if l.split()[0] in ("in", "svc", "drain", "trig", "trigr", "trigt", "hexit", "busy", "hold", "full", "buffered", "flag", "poke", "hq", "vq", "refval")]
     return {"id": scn.sid, "cap": scn.cap, "buf": [scn.buf, scn.uns], "commands": [c.name.decode("latin1") for c in scn.cmds][:8], "ops": ops[:6], "n_ops": len(ops)}
 
 
